@@ -689,6 +689,9 @@ func (p *Prog) VerifyFunc(fn *ssa.Function) *FuncVC {
 		for i := 0; i < rs.Len() && i < len(r.results); i++ {
 			t := rs.At(i).Type()
 			re.vars[rnames[i]] = sval{t: c.termOf(r.results[i], "result"), sort: c.S.SortOf(t), gt: t}
+			if _, taken := re.vars[resultAlias(i, rs.Len())]; !taken {
+				re.vars[resultAlias(i, rs.Len())] = re.vars[rnames[i]]
+			}
 		}
 		for i, en := range ct.Ensures {
 			g := re.tr(en.E)
@@ -702,6 +705,10 @@ func (p *Prog) VerifyFunc(fn *ssa.Function) *FuncVC {
 	// vacuity canary: some return must be reachable under all assumptions
 	if len(retConds) > 0 {
 		c.addObl(&Obligation{Name: "vacuity:return-reachable", Kind: "vacuity", Guard: or(retConds...), Goal: "false", ExpectSat: true})
+	}
+	// interface refinement and stream invariants (methods called repeatedly by dependencies)
+	if ct.Implements != "" || len(ct.Stream) > 0 {
+		c.verifyStream(fr, ct, e, entry, rets)
 	}
 	// dynamic-type facts for interface assertions
 	var ifs []types.Type
